@@ -2,7 +2,7 @@
 import ast
 import z3
 
-from .vtypes import (RefS, StrS, NULL, INF, EMPTY_STR, Val, NONE, REG, sort_of, is_ref, is_opt, strip_opt, FALSE, TRUE,
+from .vtypes import (IdS, RefS, StrS, NULL, INF, EMPTY_STR, Val, NONE, REG, sort_of, is_ref, is_opt, strip_opt, FALSE, TRUE,
                     ty_str, mk_none, default_term, definitely_none, definitely_not_none)
 from .state import (State, Frame, PathEnd, Unsupported, ReturnExc, BreakExc, ContinueExc, RaiseExc, ExcVal)
 from .repo import FuncInfo, ClassInfo, ModuleInfo
@@ -148,6 +148,8 @@ class Interp:
             t = TRUE
         elif base == "Str":
             t = v.term != EMPTY_STR
+        elif base == "Id":
+            t = TRUE
         elif is_ref(base):
             kd = REG.get(base[1])
             if kd.kind in ("dict", "set"):
@@ -358,7 +360,7 @@ class Interp:
     def owned_elem(self, st, cont, kterm, v):
         """ownership discipline for containers stored as dict values: d[k] is owned by (d, k)"""
         base = strip_opt(v.ty)
-        if is_ref(base) and REG.get(base[1]).kind != "object" and not st.in_old and kterm.sort() == StrS:
+        if is_ref(base) and REG.get(base[1]).kind != "object" and not st.in_old and kterm.sort() == IdS:
             own = z3.Implies(z3.And(v.term != NULL, z3.Select(self.dom_of(st, cont), kterm)),
                              z3.And(prelude.owner_obj(v.term) == cont.term, prelude.owner_fld(v.term) == -1,
                                     prelude.owner_key(v.term) == kterm))
@@ -1075,7 +1077,7 @@ class Interp:
             return Val("Fun", ("builtin_method", "dt." + attr, obj))
         if base == "Real":
             return Val("Fun", ("builtin_method", "real." + attr, obj))
-        if base == "Str":
+        if base in ("Str", "Id"):
             return Val("Fun", ("builtin_method", "str." + attr, obj))
         if base == "Exc":
             return Val("Fun", ("builtin_method", "exc." + attr, obj))
@@ -1086,10 +1088,9 @@ class Interp:
                 # assumed: uuid4().hex is fresh -- it is not a key of any existing dict (uniqueness is probabilistic)
                 r = obj.extra[1]
                 d = z3.FreshConst(RefS, "d")
-                dom = st.hget("$dom#Str", z3.ArraySort(StrS, z3.BoolSort()))
+                dom = st.hget("$dom#Id", z3.ArraySort(IdS, z3.BoolSort()))
                 st.assume(z3.ForAll([d], z3.Not(z3.Select(z3.Select(dom, d), r))))
-                st.assume(r != EMPTY_STR)
-                return Val("Str", r)
+                return Val("Id", r)
             return Val("Fun", ("builtin_method", "any." + attr, obj))
         if is_ref(base):
             clsname = base[1]
@@ -1303,6 +1304,9 @@ class Interp:
         if v.extra and v.extra[0] in ("emptydict", "emptylist", "emptyset") and v.term is None:
             from . import calls
             ty = calls.annotation_type(self, st, s.annotation)
+            c_ = self.active_contract(st.frame.func) if st.frame.func is not None else None
+            if isinstance(s.target, ast.Name) and c_ is not None and s.target.id in c_.types:
+                ty = REG.parse(c_.types[s.target.id])      # sidecar override of a local's annotation (str -> Id)
             if isinstance(s.target, ast.Attribute):
                 ob_ = self.eval(st, s.target.value)
                 if is_ref(strip_opt(ob_.ty)):
